@@ -96,6 +96,9 @@ impl VMBuilder {
 struct Compiler {
     b: VMBuilder,
     options: RegexOptions,
+    /// Number of enclosing constructs that end with an `EndAtomic` (atomic groups, hard
+    /// look-arounds, conditions of conditionals)
+    atomic_depth: usize,
 }
 
 impl Compiler {
@@ -103,6 +106,7 @@ impl Compiler {
         Compiler {
             b: VMBuilder::new(max_group),
             options: Default::default(),
+            atomic_depth: 0,
         }
     }
 
@@ -155,7 +159,9 @@ impl Compiler {
                 // TODO optimization: atomic insns are not needed if the
                 // child doesn't do any backtracking.
                 self.b.add(Insn::BeginAtomic);
+                self.atomic_depth += 1;
                 self.visit(&info.children[0], false)?;
+                self.atomic_depth -= 1;
                 self.b.add(Insn::EndAtomic);
             }
             Expr::Delegate { .. } => {
@@ -233,7 +239,9 @@ impl Compiler {
         self.b.add(Insn::Split(split_pc + 1, usize::MAX));
 
         // add the conditional expression
+        self.atomic_depth += 1;
         handle_child(self, 0)?;
+        self.atomic_depth -= 1;
 
         // mark it as successful to remove the state we added as a split earlier
         self.b.add(Insn::EndAtomic);
@@ -246,6 +254,14 @@ impl Compiler {
 
         // add the false branch, update the split target
         self.b.set_split_target(split_pc, self.b.pc(), true);
+        if self.atomic_depth > 0 {
+            // The false branch is reached by backtracking to the split, which does not undo the
+            // entry `BeginAtomic` pushed before it. An enclosing atomic construct would pop
+            // that stale entry instead of its own, so drop it here (this cuts nothing: the
+            // split's branch is already gone). Without an enclosing atomic construct nothing
+            // ever pops below the entry and it is harmless.
+            self.b.add(Insn::EndAtomic);
+        }
         handle_child(self, 2)?;
 
         // update the jump target for jumping over the false branch
@@ -394,12 +410,14 @@ impl Compiler {
                     // never tried
                     if inner.hard {
                         self.b.add(Insn::BeginAtomic);
+                        self.atomic_depth += 1;
                     }
                     self.compile_alt(alternatives.len(), |compiler, i| {
                         let alternative = &alternatives[i];
                         compiler.compile_positive_lookaround(alternative, la)
                     })?;
                     if inner.hard {
+                        self.atomic_depth -= 1;
                         self.b.add(Insn::EndAtomic);
                     }
                     Ok(())
@@ -436,9 +454,11 @@ impl Compiler {
         // body is a single delegate or literal and has no backtrack branches to discard.
         if inner.hard {
             self.b.add(Insn::BeginAtomic);
+            self.atomic_depth += 1;
         }
         self.compile_lookaround_inner(inner, la)?;
         if inner.hard {
+            self.atomic_depth -= 1;
             self.b.add(Insn::EndAtomic);
         }
         self.b.add(Insn::Restore(save));
